@@ -7,6 +7,7 @@ package verifbubble
 
 import (
 	"fmt"
+	"os"
 	"runtime"
 	"runtime/debug"
 	"strings"
@@ -62,6 +63,9 @@ func Run(t *testing.T, body func()) (out Outcome) {
 		var o Outcome
 		defer func() { done <- o }()
 		defer func() {
+			if os.Getenv("VFX_NORECOVER") != "" {
+				return
+			}
 			if r := recover(); r != nil {
 				msg := fmt.Sprint(r)
 				if strings.Contains(msg, "blocked goroutines remain") {
